@@ -71,6 +71,17 @@ var c04Shapes = []accShape{
 	{"TWCC/run-length-chunk-one-small-delta", "*TransportLayerCC.Unmarshal", 24, cells(hdr(0xAF, 205, 5), map[int]int{14: 0, 15: 1, 20: 0x20, 21: 0x01, 23: 1}), "status count 1, one run-length chunk (received, small delta, run 1), one delta octet, one padding octet"},
 	{"TWCC/two-bit-vector-chunk-one-small-delta", "*TransportLayerCC.Unmarshal", 24, cells(hdr(0xAF, 205, 5), map[int]int{14: 0, 15: 1, 20: 0xD0, 21: 0x00, 23: 1}), "the same status sequence as a two-bit status vector chunk (alternative chunking)"},
 	{"TWCC/one-bit-vector-chunk-one-small-delta", "*TransportLayerCC.Unmarshal", 24, cells(hdr(0xAF, 205, 5), map[int]int{14: 0, 15: 1, 20: 0xA0, 21: 0x00, 23: 1}), "the same status sequence as a one-bit status vector chunk (alternative chunking)"},
+	{"SLI/one-entry", "*SliceLossIndication.Unmarshal", 16, hdr(0x82, 205, 3), "one FCI entry (the packet type this library registers for SLI, finding F10)"},
+	{"SR/31-reports", "*SenderReport.Unmarshal", 28 + 24*31, hdr(0x9F, 200, 6+6*31), "RC = 31, the maximum"},
+	{"RR/31-reports", "*ReceiverReport.Unmarshal", 8 + 24*31, hdr(0x9F, 201, 1+6*31), "RC = 31, the maximum"},
+	{"BYE/31-sources", "*Goodbye.Unmarshal", 4 + 4*31, hdr(0x9F, 203, 31), "SC = 31, the maximum"},
+	{"BYE/255-octet-reason", "*Goodbye.Unmarshal", 8 + 256, cells(hdr(0x81, 203, 1+64), map[int]int{8: 255}), "one source and a reason of the maximal length"},
+	{"SDES/two-chunks", "*SourceDescription.Unmarshal", 28, cells(hdr(0x82, 202, 6), map[int]int{8: 1, 9: 2, 12: 0, 13: 0, 14: 0, 15: 0, 20: 1, 21: 2, 24: 0, 25: 0, 26: 0, 27: 0}), "two chunks, each with a 2-octet CNAME and a terminating word"},
+	{"SDES/empty-chunk", "*SourceDescription.Unmarshal", 12, cells(hdr(0x81, 202, 2), map[int]int{8: 0, 9: 0, 10: 0, 11: 0}), "a chunk without items: the SSRC followed by a null word"},
+	{"NACK/two-pairs", "*TransportLayerNack.Unmarshal", 20, hdr(0x81, 205, 4), "two FCI entries"},
+	{"FIR/two-entries", "*FullIntraRequest.Unmarshal", 28, hdr(0x84, 206, 6), "two FCI entries"},
+	{"REMB/255-ssrcs", "*ReceiverEstimatedMaximumBitrate.Unmarshal", 20 + 4*255, cells(hdr(0x8F, 206, 4+255), text(12, "REMB"), map[int]int{16: 255}), "Num SSRC = 255, the maximum"},
+	{"CCFB/block-with-two-metrics", "*CCFeedbackReport.Unmarshal", 24, cells(hdr(0x8B, 205, 5), map[int]int{14: 0, 15: 1}), "one report block whose count field announces two metric blocks (this library's n-1 convention, finding F16)"},
 	{"XR/no-blocks", "*ExtendedReport.Unmarshal", 8, hdr(0x80, 207, 1), "RFC 3611 2: zero report blocks"},
 	{"XR/unknown-block", "*ExtendedReport.Unmarshal", 16, cells(hdr(0x80, 207, 3), map[int]int{8: 99, 10: 0, 11: 1}), "RFC 3611 3: a block of an unrecognised type with one word of content is skipped by its length, here returned as an opaque block"},
 	{"datagram/padded-APP-then-PLI", "Unmarshal", 28, cells(hdr(0xA0, 204, 3), map[int]int{15: 4, 16: 0x81, 17: 206, 18: 0, 19: 2}), "two well-framed packets; the first one carries padding (C06: each frame is decoded from its own octets only)"},
